@@ -58,7 +58,9 @@ def keys (_ : Lean.Json) : Lean.Json :=
   let entries := keyTable.map fun e => Lean.Json.mkObj [
     ("g", toJson (e.group.getD "")), ("k", toJson e.key), ("c", toJson e.leaf.coerce.name),
     ("f", toJson e.leaf.goName), ("x", toJson e.leaf.xform)]
-  let norm := normRules.map fun (l, c) => Lean.Json.mkObj [("f", toJson l.goName), ("cond", toJson c.src)]
+  let norm := normRules.map fun r => Lean.Json.mkObj [("f", toJson r.leaf.goName),
+    ("cond", toJson r.cond.src),
+    ("to", toJson (match r.to with | .default => "default" | .const v => toString v))]
   Lean.Json.mkObj [("model", Lean.Json.mkObj [
     ("entries", Lean.Json.arr entries.toArray), ("norm", Lean.Json.arr norm.toArray),
     ("wrapper", toJson #["hledger"]), ("defaults", viewOf defaults)])]
@@ -66,15 +68,12 @@ def keys (_ : Lean.Json) : Lean.Json :=
 def leafNames (ls : List Leaf) : String := ", ".intercalate (ls.map Leaf.goName)
 
 /-- One application of a payload, judged by the statement's rule on the implementation's
-    settings before and after.  Returns (ok, excused by wrapper-shadows-siblings, why). -/
-def judge (prev : Settings) (p : J) (res : Settings) : Bool × Bool × String :=
-  if HL.SettingsSpec.specOk prev p res then (true, false, "")
+    settings before and after.  Returns (ok, why). -/
+def judge (prev : Settings) (p : J) (res : Settings) : Bool × String :=
+  if HL.SettingsSpec.specOk prev p res then (true, "")
   else
-    let inner := HL.SettingsSpec.innermost p
-    let excused := HL.SettingsSpec.wrapperShadows p &&
-      HL.SettingsSpec.specOkAt inner prev res && HL.SettingsSpec.valid res
     let bad := HL.SettingsSpec.failingLeaves (HL.SettingsSpec.levels p) prev res
-    (false, excused, s!"fields not as the statement's rule requires: {leafNames bad}" ++
+    (false, s!"fields not as the statement's rule requires: {leafNames bad}" ++
       (if HL.SettingsSpec.valid res then "" else "; stored settings not validated"))
 
 /-- op c19.parse: `model` = settings after every payload;
@@ -87,7 +86,6 @@ def parse (j : Lean.Json) : Lean.Json := Id.run do
   let mut implPrev := s
   let domain := HL.SettingsSpec.valid s
   let mut ok := true
-  let mut allExcused := true
   let mut why := ""
   let mut nontrivial := false
   let mut i := 0
@@ -100,18 +98,16 @@ def parse (j : Lean.Json) : Lean.Json := Id.run do
       out := out.push (viewOf s)
       let implNow := ofView (impl[i]?.getD .null)
       if domain then
-        let (o, ex, w) := judge implPrev pj implNow
+        let (o, w) := judge implPrev pj implNow
         if !o then
           ok := false
-          if !ex then allExcused := false
-          why := why ++ s!"payload {i}{if ex then " (excused)" else ""}: {w}; "
+          why := why ++ s!"payload {i}: {w}; "
         if Leaf.all.any (fun l => HL.SettingsSpec.mentions l (HL.SettingsSpec.levels pj) ≠ []) then
           nontrivial := true
       implPrev := implNow
     i := i + 1
-  let known : Array Lean.Json := if !ok && allExcused then #["wrapper-shadows-siblings"] else #[]
   return Lean.Json.mkObj [("model", Lean.Json.arr out), ("spec_ok", ok || !domain),
-    ("in_domain", domain), ("known", Lean.Json.arr known), ("why", why),
+    ("in_domain", domain), ("known", Lean.Json.arr #[]), ("why", why),
     ("nontrivial", domain && nontrivial)]
 
 /-! ### c19.seq -/
@@ -140,7 +136,7 @@ def obsJson (o : HL.SettingsSpec.Obs) : Lean.Json :=
     ("includeTooLarge", o.includeTooLarge)]
 
 def pendingIdx (σ : Srv) : List Nat :=
-  (σ.tasks.zipIdx.filter fun (pc, _) => match pc with | .asked => true | _ => false).map (·.2)
+  (σ.tasks.zipIdx.filter fun (t, _) => match t.pc with | .asked => true | _ => false).map (·.2)
 
 def stateJson (σ : Srv) : List (String × Lean.Json) := [
   ("settings", viewOf σ.settings), ("cfg", σ.supportsCfg), ("pending", toJson (pendingIdx σ).length)]
@@ -152,13 +148,17 @@ def wrapTagged (p : Lean.Json) : Lean.Json :=
 
 /-- op c19.seq — see harness/c19.go `c19SeqCase` for the events.
     model    = per event: settings, supportsConfiguration, number of blocked pulls, and for
-               `init` the capabilities, for `observe` the probe results the stored settings call for;
-    spec_ok  = (a) every payload delivered by a conforming client — initialization options, or
-               the settings pushed with didChangeConfiguration (answered, if the server pulls,
-               with those same settings) — changes the implementation's settings as the
-               statement's rule says; (b) when several changes were in flight, the settings
-               at rest are those of the changes applied in the order they were announced;
-               (c) probes show the stored settings in effect and no handler fails. -/
+               `init` the capabilities, for `observe` the probe results the model predicts
+               (stored settings, loader cache as the model has it);
+    spec_ok  = (a) every payload delivered by a conforming client — initialization options, the
+               settings pushed with didChangeConfiguration to a server that cannot ask, or the
+               answer to the server's LATEST workspace/configuration request — changes the
+               implementation's settings as the statement's rule says;
+               (b) the answer to a request that has been superseded by a newer change
+               notification changes nothing, in whatever order the answers are handled — so
+               that the settings at rest are those of the latest request;
+               (c) probes show the stored settings in effect — the limits as a loader with an
+               empty cache applies them — and no handler fails. -/
 def seq (j : Lean.Json) : Lean.Json := Id.run do
   let events := jarr j "events"
   let impl := jarr j "impl"
@@ -174,17 +174,15 @@ def seq (j : Lean.Json) : Lean.Json := Id.run do
   let mut why := ""
   let mut known : Array String := #[]
   let mut unexcused := false
-  let mut pushes : Array (Lean.Json × J) := #[]     -- payloads of pulls still blocked, oldest first
-  let mut reordered := false
-  let mut ref := σ.settings        -- model fold of the pushed payloads in announcement order
+  -- the pulls still blocked, oldest first: request number, pushed payload (tagged / decoded)
+  let mut pushes : Array (Nat × Lean.Json × J) := #[]
+  let mut requests := 0        -- refresh requests announced so far (initialized, changes)
   let mut caps0 : Option Caps := none
   let mut nontrivial := false
-  let mut cache : List Nat := []     -- loader cache for the include probe's directory
   let mut i := 0
   for e in events do
     let implSt := impl[i]?.getD .null
     let implNow := ofView (jget implSt "settings")
-    let implCfg := jbool implSt "cfg"
     let mut extra : List (String × Lean.Json) := []
     let mut verdict : Option (Bool × String × String) := none   -- (ok, known id or "", why)
     match jstr e "k" with
@@ -203,36 +201,35 @@ def seq (j : Lean.Json) : Lean.Json := Id.run do
           extra := [("caps", capsJson caps)]
           caps0 := some (capsOf implNow)
         | .error _ => extra := [("error", true)]
-        ref := parseSettingsFromRaw ref pj
         if domain then
-          let (o, ex, w) := judge implPrev pj implNow
-          if !o then verdict := some (false, if ex then "wrapper-shadows-siblings" else "", s!"event {i} (initialize): {w}")
+          let (o, w) := judge implPrev pj implNow
+          if !o then verdict := some (false, "", s!"event {i} (initialize): {w}")
           else if capsJson (capsOf implNow) != jget implSt "caps" then
             verdict := some (false, "", s!"event {i}: advertised capabilities do not follow the feature switches")
           if Leaf.all.any (fun l => HL.SettingsSpec.mentions l (HL.SettingsSpec.levels pj) ≠ []) then nontrivial := true
     | "initialized" =>
       let n := σ.tasks.length
-      σ := ok! σ (stepTask (spawnRefresh σ) n .err)
-      if (pendingIdx σ).length > pushes.size then pushes := pushes.push (.null, .null)
+      σ := ok! σ (stepTask (ok! σ (step σ .initialized)) n .err)
+      requests := requests + 1
+      if (pendingIdx σ).length > pushes.size then pushes := pushes.push (requests, .null, .null)
     | "change" =>
       let p := jget e "p"
       if p.isNull then
         extra := [("decodeError", true)]
       else
         let n := σ.tasks.length
-        σ := ok! σ (stepTask (spawnRefresh σ) n .err)
         let pj := untag p
-        ref := parseSettingsFromRaw ref pj
+        σ := ok! σ (stepTask (ok! σ (step σ (.didChangeConfiguration pj))) n .err)
+        requests := requests + 1
         if Leaf.all.any (fun l => HL.SettingsSpec.mentions l (HL.SettingsSpec.levels pj) ≠ []) then nontrivial := true
         if (pendingIdx σ).length > pushes.size then
-          pushes := pushes.push (p, pj)
+          pushes := pushes.push (requests, p, pj)
         else if domain then
           -- the server does not pull (no client, or the client did not announce
           -- workspace.configuration): the pushed settings are all it will ever see
-          let (o, _, w) := judge implPrev pj implNow
+          let (o, w) := judge implPrev pj implNow
           if !o then
-            verdict := some (false, if implNow == implPrev then "push-ignored" else "",
-              s!"event {i} (didChangeConfiguration, no pull): {w}")
+            verdict := some (false, "", s!"event {i} (didChangeConfiguration, no pull): {w}")
     | "answer" =>
       let t := jnat e "task"
       match (pendingIdx σ)[t]? with
@@ -241,56 +238,48 @@ def seq (j : Lean.Json) : Lean.Json := Id.run do
         let reply : Pull := if jbool e "err" then .err else .items ((jarr e "ps").toList.map untag)
         σ := ok! σ (stepTask σ idx reply)
         σ := ok! σ (stepTask σ idx reply)
-        σ := ok! σ (stepTask σ idx reply)
-        let (pushed, pj) := pushes[t]?.getD (.null, .null)
+        let (req, pushed, pj) := pushes[t]?.getD (0, .null, .null)
         pushes := pushes.eraseIdx! t
-        if t != 0 then reordered := true
         -- a conforming client answers with the settings it announced
         let ps := jarr e "ps"
         let conforming := !jbool e "err" && ps.size == 1 &&
           (if pushed.isNull then ps[0]! == Lean.Json.mkObj [("t", "z")]
            else ps[0]! == pushed || wrapTagged ps[0]! == pushed)
         if !conforming then domain := false
-        if domain && !reordered && !pushed.isNull then
-          let (o, ex, w) := judge implPrev pj implNow
-          if !o then verdict := some (false, if ex then "wrapper-shadows-siblings" else "", s!"event {i} (configuration pulled): {w}")
-        if domain && reordered && pushes.isEmpty then
-          -- at rest after out-of-order completion
-          if implNow != ref then
-            verdict := some (false, "refresh-out-of-order",
-              s!"event {i}: at rest the settings are not those of the announced changes applied in order: {leafNames (Leaf.all.filter fun l => get implNow l != get ref l)}")
+        if domain then
+          if req == requests then
+            -- the answer to the latest request: applied by the rule
+            let (o, w) := judge implPrev pj implNow
+            if !o then verdict := some (false, "", s!"event {i} (answer to the latest request): {w}")
+          else if implNow != implPrev then
+            verdict := some (false, "",
+              s!"event {i}: the answer to a superseded request (number {req} of {requests}) changed the settings: {leafNames (Leaf.all.filter fun l => get implNow l != get implPrev l)}")
     | "observe" =>
-      if !jbool e "reuse" then cache := []
-      let (exp, cache') := HL.SettingsSpec.expectedObs σ.settings hasClient cache
+      let fresh := !jbool e "reuse"
+      let cacheUsed := if fresh then [] else σ.cache
+      let exp := HL.SettingsSpec.expectedObsAt σ.settings hasClient
+        (fun L D => ((includeProbe cacheUsed L D).1, (includeProbe cacheUsed L D).2.1))
+      σ := ok! σ (step σ (.probe fresh))
       extra := [("obs", obsJson exp)]
       if domain then
         let o := jget implSt "obs"
         -- the statement: the stored limits govern the load, whatever was loaded before
-        let (want, _) := HL.SettingsSpec.expectedObs implNow hasClient []
-        let (wantWarm, _) := HL.SettingsSpec.expectedObs implNow hasClient cache
-        let panics := jget o "format" == "panic" || jget o "inline" == "panic"
+        let want := HL.SettingsSpec.expectedObs implNow hasClient
         let hoverOff := (match caps0 with | some c => c.hoverProvider | none => false) &&
           !implNow.features.hover && jbool o "hoverAnswers"
-        if o != obsJson want then
-          verdict := some (false, if o == obsJson wantWarm then "limits-skip-cached-includes" else "",
-            s!"event {i}: observed behaviour does not follow the stored settings")
-        else if panics then
-          verdict := some (false, "unbounded-width-panics", s!"event {i}: a request handler panics with the accepted settings")
+        if jget o "format" == "panic" || jget o "inline" == "panic" then
+          verdict := some (false, "", s!"event {i}: a request handler panics with the accepted settings")
+        else if o != obsJson want then
+          verdict := some (false, "", s!"event {i}: observed behaviour does not follow the stored settings")
         else if hoverOff then
           verdict := some (false, "feature-switch-after-init", s!"event {i}: hover still answered after features.hover was switched off")
-      cache := cache'
     | _ => pure ()
-    -- after any non-conforming step the reference follows the implementation
-    if !domain then ref := implNow
-    if pushes.isEmpty && !reordered then ref := implNow
-    if pushes.isEmpty then reordered := false
     match verdict with
     | some (false, k, w) =>
       ok := false
       if why.isEmpty then why := w
       if k.isEmpty then unexcused := true else if !known.contains k then known := known.push k
     | _ => pure ()
-    let _ := implCfg
     out := out.push (Lean.Json.mkObj (extra ++ stateJson σ))
     implPrev := implNow
     i := i + 1
